@@ -55,7 +55,7 @@ class Box(nn.Module):
 
 LEAVES = ['Lin', 'LinNB', 'SubLin', 'LinChild', 'Conv2d', 'Conv1d', 'ReLU',
           'Frozen', 'HalfFrozen', 'Shared', 'Emb', 'BN', 'NoneSlot', 'TiedF', 'GainF', 'Proj']
-CONTAINERS = ['Seq', 'Dict', 'Box']
+CONTAINERS = ['Seq', 'Dict', 'Box', 'Mod']
 
 
 def mk_leaf(kind, shared):
@@ -119,6 +119,10 @@ def build(tree, shared):
         return nn.Sequential(*mods)
     if kind == 'Dict':
         return nn.ModuleDict(dict(zip(['x', 'y', 'z', 'u', 'v'], mods)))
+    if kind == 'Mod':
+        # children called 'module', 'fc', ... (the name DDP wrappers use)
+        return nn.ModuleDict(dict(zip(['module', 'fc', 'out', 'm3', 'm4'],
+                                      mods)))
     return Box(mods)
 
 
@@ -247,7 +251,8 @@ def tree_case(part, item):
 
 SKIPS = [(), ('linear',), ('Linear',), ('^0$',), ('1',), (r'\.0$',),
          ('Conv',), ('a|b',), ('^$',), ('x', 'Sub'), (r'^a\.', 'Conv2d'),
-         ('y$', '^Lin'), ('^Proj$',), ('Outer',)]
+         ('y$', '^Lin'), ('^Proj$',), ('Outer',), (r'^module\.',),
+         ('^fc$',)]
 
 
 # ------------------------------------------------------------- GPT-NeoX
@@ -391,7 +396,7 @@ def main(run: core.Run):
         f'every module tree with <= {maxn} nodes over 16 leaf kinds (Linear '
         '+/- bias, Linear subclasses with and without a child, Conv2d, '
         'Conv1d, Embedding, BatchNorm2d, ReLU, frozen and half-frozen Linear,'
-        ' one shared instance mounted repeatedly, distinct instances tied to one frozen weight, a subclass with a frozen extra parameter) and 3 container kinds x '
+        ' one shared instance mounted repeatedly, distinct instances tied to one frozen weight, a subclass with a frozen extra parameter) and 4 container kinds x '
         f'{len(skips)} skip-pattern lists; registered (name, instance) set '
         'compared with an independent pre-order walk, also for a second registration after the same model instance was edited; hook counts on every '
         'module; non-trivial = at least one registered and one unregistered '
